@@ -108,6 +108,13 @@ pub fn compare(tokens: &[Tok], reference: &Trace, lib: &LibRun) -> Option<Diverg
         if unbalanced || matches!(reference.end, End::Ambiguous { .. }) {
             return None;
         }
+        // a script that the reference fails because of an OP_ELSE / OP_ENDIF without an open conditional fails either way:
+        // refusing it when it is parsed is as good as failing it when it is run
+        if let End::Failed { why, .. } = &reference.end {
+            if why.contains("without") && (why.contains("ELSE") || why.contains("ENDIF")) {
+                return None;
+            }
+        }
         return Some(Divergence { step: 0, tok: 0, kind: "script-not-parsed", detail: format!("library cannot parse the script: {}", lib.parse_err.clone().unwrap_or_default()) });
     }
     let n = reference.states.len().min(lib.states.len());
